@@ -27,6 +27,8 @@ import (
 func TestSim(t *testing.T) {
 	if os.Getenv("VERIF_SGLOG") == "" {
 		base.DisableTestLogging(t)
+	} else if os.Getenv("VERIF_SGLOG") == "debug" {
+		base.SetUpTestLogging(t, base.LevelDebug, base.KeyAll)
 	}
 	base.SkipPrometheusStatsRegistration = true // as the repository's own TestMain does
 	verifsim.WorkerMain(t)
